@@ -78,14 +78,35 @@ def run(prop, tier, seed):
         corr = {"evaluations": 0, "distinct_nontrivial": 0, "disagreements": [], "samples": [],
                 "rule": "", "distribution": {}}
         if dok:
-            corr = P.correspondence(ctx)
+            try:
+                corr = P.correspondence(ctx)
+            except InfraError:
+                raise
+            except Exception as e:
+                # on the unchanged tree a crashing harness is an infrastructure problem (exit 2); on a tree whose
+                # anchored sources differ from the baseline, or with a tie / theorem already broken, the correspondence
+                # can no longer be established: that is a broken obligation, and the oracle goes looking
+                if not (ctx.changed_files or broken):
+                    raise
+                broken.append(("correspondence", "the correspondence run aborted (%s: %s) - the harness no longer "
+                               "understands the code under check" % (type(e).__name__, str(e)[:300])))
+                notes.append(traceback.format_exc()[-1500:])
             for d in corr["disagreements"][:5]:
                 broken.append(("correspondence", "model and implementation differ on %s: model=%s impl=%s"
                                % (json.dumps(d.case)[:300], json.dumps(d.model)[:200], json.dumps(d.impl)[:200])))
 
         # ---- 4. oracle on the implementation --------------------------------------------
         hints = [d.case for d in corr["disagreements"]]
-        orc = P.oracle(ctx, bool(broken), hints)
+        try:
+            orc = P.oracle(ctx, bool(broken), hints)
+        except InfraError:
+            raise
+        except Exception as e:
+            if not (ctx.changed_files or broken):
+                raise
+            broken.append(("oracle", "the property oracle aborted (%s: %s)" % (type(e).__name__, str(e)[:300])))
+            notes.append(traceback.format_exc()[-1500:])
+            orc = {"evaluations": 0, "failures": []}
         failures = orc["failures"]
 
         # ---- 5. known findings -----------------------------------------------------------
